@@ -10,7 +10,7 @@
          recursion over the list; Pool_step_dials), a closed Client never dials again and holds no connection
          (Pool_closed_stays_closed), Client.Close closes every connection it held (Pool_client_close).
    Only statements; proofs are lemmas of Proofs/PoolThms.v.  Tie to the code: the `pool` correspondence suite. *)
-From H2V Require Import Impl.ClientPool Proofs.PoolThms Proofs.PoolLeak.
+From H2V Require Import Impl.ClientPool Proofs.PoolThms Proofs.PoolLeak Proofs.PoolMono.
 From Coq Require Import NArith List Bool.
 Import ListNotations.
 Local Open Scope N_scope.
@@ -77,6 +77,23 @@ Print Assumptions Pool_kept.
 Theorem Pool_no_leak_after_close : forall evs c, pl_closed (pl_run evs) = true -> In c (pl_stat (pl_run evs)) -> plc_closed c = true.
 Proof. exact no_leak_after_close. Qed.
 Print Assumptions Pool_no_leak_after_close.
+
+(* Closed() is monotone: a connection the client made and that has been closed (by Conn.Close, by Client.Close) reads as
+   closed in every later state, whatever events follow (C11: "after GOAWAY ... no further stream on that connection":
+   a connection closed on GOAWAY does not come back; C12: a closed connection's requests are not joined by new ones) ... *)
+Theorem Pool_closed_conn_stays_closed : forall evs1 evs2 x,
+  shut (pl_run evs1) x = true -> shut (pl_run_from (pl_run evs1) evs2) x = true.
+Proof. exact closed_conn_stays_closed. Qed.
+Print Assumptions Pool_closed_conn_stays_closed.
+
+(* ... and no pickConn of any later state returns it: not from the list, not as a "new" connection *)
+Theorem Pool_closed_conn_never_picked : forall evs1 evs2 x d q o,
+  shut (pl_run evs1) x = true -> pl_pick_conn (pl_run_from (pl_run evs1) evs2) d <> (q, PRConn x, o).
+Proof. exact closed_conn_never_picked. Qed.
+Print Assumptions Pool_closed_conn_never_picked.
+
+Example Pool_ex_shut : shut (pl_run (ex_evs ++ [PEvClientClose])) 1 = true /\ shut (pl_run ex_evs) 7 = false.
+Proof. exact ex_shut. Qed.
 
 Example Pool_ex_no_leak : let p := pl_run (ex_evs ++ [PEvClientClose; PEvPick PDialOk]) in
   pl_closed p = true /\ map plc_id (pl_stat p) = [1; 0] /\ map plc_closed (pl_stat p) = [true; true].
